@@ -1,6 +1,8 @@
 """C04 -- freq_shift moves the spectrum by the given amount, zeroing what leaves the band."""
 
 import math
+
+EPS = 2.220446049250313e-16
 from fractions import Fraction as F
 
 import numpy as np
@@ -105,7 +107,11 @@ def run_fs(case, stt):
             cyc = np.array([float((a * int(n) / N) % 1) for n in n_idx], dtype=O.LD)
             mixed = col.astype(O.CLD) * O.cis_cycles_ld(cyc)
         Yref = np.fft.fftshift(fwd(mixed))
-        d = F(1, 10**9) * max(1, abs(a))
+        # The inputs define the shift a (in bins) exactly.  An exactly whole a must be treated as whole (|a| bins cleared, the rest an
+        # exact move).  A fractional a within float-evaluation error (df*dt*N: a dozen eps) of a whole number may be evaluated to
+        # either side: there the boundary bin is not constrained.
+        near = abs(a - round(a))
+        d = F(0) if (a.denominator == 1 or near > 12 * F(EPS) * abs(a)) else 12 * F(EPS) * abs(a)
         aa = abs(a)
         lo = min(N, math.ceil(aa - d)) if aa - d > 0 else 0
         hi = min(N, math.ceil(aa + d))
@@ -130,10 +136,10 @@ def run_fs(case, stt):
             ai = int(a)
             # whole bins: exact circular move of the input spectrum (bins that stay in band)
             src = X[(slice(None),) + ix]
-            # (the single bin next to the zeroed region is left out: whether it is cleared depends on how
-            #  df*dt*N rounds, e.g. 6 Hz * 0.1 s * 5 = 3.0000000000000004 -> ceil 4)
-            moved = src[1 : N - ai] if ai > 0 else src[-ai : N - 1] if ai < 0 else src
-            dst = got[ai + 1 :] if ai > 0 else got[: N + ai - 1] if ai < 0 else got
+            # (including the bin next to the cleared region: 6 Hz * 0.1 s * 5 evaluates to 3.0000000000000004 in floats and is
+            #  nevertheless a shift of exactly 3 bins -- F25)
+            moved = src[: N - ai] if ai > 0 else src[-ai:] if ai < 0 else src
+            dst = got[ai:] if ai > 0 else got[: N + ai] if ai < 0 else got
             e2 = np.abs(dst - moved)
             check(e2.size == 0 or float(np.max(e2)) <= N * tol_s, "freq_shift: whole-bin shift {} is not a move of the spectrum (err {:.3g})",
                   ai, float(np.max(e2)) if e2.size else 0.0)
@@ -243,7 +249,7 @@ SUBS = [
         "|shift| >= 500 bins with a non-zero fractional part", quick=160, thorough=3000, pieces_quick=4),
     Sub("call_history", hist_case(), run_hist,
         "the same freq_shift call repeated 2..5 times in one process with exactly one ingredient changed per step (sample rate with the "
-        "same shift in Hz, data, shift value, unit spelling, centre frequency), each result checked against the DFT oracle; non-trivial = "
+        "same shift in Hz, data, shift value, unit spelling, centre frequency), each result checked against the DFT oracle; half of the histories run on ONE signal object re-assigned through its setters / in-place ufuncs between the calls, the others on fresh signals; non-trivial = "
         "a step that changes only the sample rate", quick=600, thorough=10000, pieces_quick=4),
     Sub("refusals", err_case(), run_err, "non-baseband signal / non-frequency shift / too many shift dimensions must raise; all non-trivial",
         quick=120, thorough=1500),
